@@ -25,8 +25,10 @@ from ...schema import (
     NonNullType,
     ObjectType,
     Schema,
+    UnionType,
     unwrap_type,
 )
+from ...schema.introspection import TYPE_NAME_INTROSPECTION_FIELD
 from ..visitors import ValidationVisitor
 
 
@@ -300,11 +302,17 @@ def _collect_fields_and_fragments(
         if isinstance(selection, _ast.Field):
             fieldname = selection.name.value
 
-            fielddef = (
-                parent_type.field_map.get(fieldname, None)
-                if isinstance(parent_type, (ObjectType, InterfaceType))
-                else None
-            )
+            if fieldname == "__typename" and isinstance(
+                parent_type, (ObjectType, InterfaceType, UnionType)
+            ):
+                # Not part of any field map but of type String! everywhere.
+                fielddef = TYPE_NAME_INTROSPECTION_FIELD
+            else:
+                fielddef = (
+                    parent_type.field_map.get(fieldname, None)
+                    if isinstance(parent_type, (ObjectType, InterfaceType))
+                    else None
+                )
 
             response_name = (
                 selection.alias.value
